@@ -5,6 +5,20 @@
    ones); each execution is a trace validated by spec/trace/WindowsTrace.tla, property layer
    evaluated on every observed state.
 3. binding self-test: a corrupted copy of an accepted trace must be rejected.
+
+What one execution (`record`) covers besides the triple itself (gap audit, DESIGN 9.7):
+  * hand-over forms of the three numbers, chosen by the triple: positional / keywords, Python int, np.int64 / int32 / intp,
+    integral Python and NumPy floats (the constructor converts with int()); every yielded bound is *used* as a slice bound;
+  * `tscale` with six sampling rates (int / float / NumPy, positional / keyword); one entry per window is required;
+  * every generator of the object is a stream of windows: `slice`, `slice_array` (six signal forms: 1-D, 2-D with default /
+    explicit axis, Fortran order, a list, a strided read-only float32 view; the chunks carry their positions), the bounds in
+    `firstlast_valid` / `firstlast_splicing`, each with the public counter `iw` read inside the loop; the first stream that
+    differs from `firstlast` is judged in its place by the same clauses;
+  * histories of one object: generators abandoned after 0-2 windows, a declined use (odd overlap in `firstlast_valid`), two
+    complete passes, lock-step consumption with a `tscale()` pass and a second live object in between, `nwin` read again
+    at the end, amplitude vectors overwritten by the caller once read;
+  * the numbers of the repository's call sites (65536 / 1024, 60000 / 576, 60000 / 0);
+  * a generator that does not stop or hands out nothing is a failed call (`Raised`), not a hanging harness.
 """
 import copy
 import random
@@ -49,12 +63,122 @@ def _rle(amp, w):
     return [["wr" if (s[0] == "w" and s[3] == -1) else s[0], s[1], s[2]] for s in segs]
 
 
+# ---- hand-over forms (audit 9.7): how the three numbers, the sampling rate and the signal reach the object ----
+NFORMS = 7
+FS = [1, 2, 0.5, 30000, 2500.0, np.float64(1000.0)]
+SA_LIM = 300000        # slice_array is exercised on a real signal up to this length
+
+
+def construct(ns, w, ov, form=0):
+    """the constructor converts with int(): integral floats and NumPy scalars are lengths too; the repository's tests pass keywords"""
+    from ibldsp.utils import WindowGenerator
+    if form == 1:
+        return WindowGenerator(ns=ns, nswin=w, overlap=ov)
+    if form == 2:
+        return WindowGenerator(np.int64(ns), np.int64(w), np.int64(ov))
+    if form == 3:
+        return WindowGenerator(overlap=np.int32(ov), nswin=np.int32(w), ns=np.int32(ns))
+    if form == 4:
+        return WindowGenerator(float(ns), float(w), float(ov))
+    if form == 5:
+        return WindowGenerator(ns=np.float64(ns), nswin=w, overlap=np.float64(ov))
+    if form == 6:
+        return WindowGenerator(np.intp(ns), w, np.int32(ov))
+    return WindowGenerator(ns, w, ov)
+
+
+def _c2(tsk, fs):
+    """twice the centre in samples from one entry of the time scale (-99: not a half-integer number of samples)"""
+    if fs == 1 and type(fs) is int:
+        return int(round(2 * float(tsk))) if float(2 * tsk).is_integer() else -99
+    x = 2.0 * float(tsk) * float(fs)
+    r = round(x)
+    return int(r) if abs(x - r) <= 1e-9 * max(1.0, abs(x)) else -99
+
+
+def _signal(ns, kind):
+    """a signal whose values are their own positions along the windowed axis, in six hand-over forms
+    -> (sig, its array form, kwargs of slice_array, windowed axis)"""
+    sig, kw, axis = _signal_forms(ns, kind if (kind != 4 or ns <= 5000) else 0)
+    return sig, np.asarray(sig), kw, axis
+
+
+def _signal_forms(ns, kind):
+    base = np.arange(ns)
+    if kind == 1:
+        return np.stack([base, base + ns, base + 2 * ns]), {}, 1                  # default axis (-1) of a 2-D array
+    if kind == 2:
+        return np.stack([base, base + ns], axis=1), {"axis": 0}, 0
+    if kind == 3:
+        return np.asfortranarray(np.stack([base, base + ns])), {"axis": 1}, 1
+    if kind == 4:
+        return base.tolist(), {}, 0                                               # "array or sliceable object"
+    if kind == 5:
+        v = (np.arange(2 * ns, dtype=np.float32) / 2)[::2]                        # strided, read-only, another element type
+        v.flags.writeable = False
+        return v, {"axis": -1}, 0
+    return base, {}, 0
+
+
+def _decode_chunk(chunk, a, axis):
+    """the window a chunk of slice_array stands for: its samples carry their own positions (a: the signal as an array)"""
+    c = np.asarray(chunk)
+    if c.ndim != a.ndim or c.shape[axis] == 0:
+        return (-1, -1)
+    lane = np.take(c, 0, axis=1 - axis) if c.ndim == 2 else c
+    f, l = int(lane[0]), int(lane[-1]) + 1
+    if l - f != c.shape[axis] or f < 0 or l > a.shape[axis]:
+        return (-1, -1)
+    ref = a[f:l] if (a.ndim == 1 or axis == 0) else a[:, f:l]
+    return (f, l) if np.array_equal(c, ref) else (-1, -1)
+
+
+def _use(ns, f, l):
+    """the bounds used the way every caller uses them (sig[first:last]): needs real integers"""
+    range(ns)[f:l]
+    return (int(f), int(l))
+
+
+class DoesNotStop(Exception):
+    pass
+
+
+class NoWindow(Exception):
+    pass
+
+
+def _bounded(gen, n):
+    """window starts increase strictly: a generator that hands out more than n windows (n: what any admissible stride can
+    give, plus slack) does not stop - reported as a failed call instead of a harness that hangs"""
+    for i, x in enumerate(gen):
+        if i >= n:
+            raise DoesNotStop("more windows than any admissible stride can give")
+        yield x
+
+
+def _spl_items(gen, ramp, obj=None):
+    """firstlast_splicing consumed window by window: the amplitude vector is read, then overwritten by the caller (it is the
+    caller's array: `amp *= gain` must not reach the vectors handed out later)"""
+    out = []
+    for f, l, a in gen:
+        out.append((int(f), int(l), _rle(a, ramp), len(a), int(obj.iw) if obj is not None else -1))
+        try:
+            a[:] = -3.0
+        except ValueError:
+            pass
+    return out
+
+
 def record(ns, w, ov):
     """one execution of the real object -> one trace record"""
-    from ibldsp.utils import WindowGenerator
-    rec = {"ns": ns, "w": w, "ov": ov, "nwin": 0, "wins": [], "exc": "", "nslices": 0}
+    rec = {"ns": ns, "w": w, "ov": ov, "nwin": 0, "wins": [], "exc": "", "nslices": 0, "src": "firstlast"}
+    form = (ns + 3 * w + 5 * ov) % NFORMS
+    ifs = (2 * ns + w + 3 * ov) % len(FS)
+    fs = FS[ifs]
+    tscale = (lambda o: o.tscale(fs=fs)) if ifs % 2 == 0 else (lambda o: o.tscale(fs))
+    cap = ns // (w - ov) + 3
     try:
-        wg = WindowGenerator(ns, w, ov)
+        wg = construct(ns, w, ov, form)
         rec["nwin"] = int(wg.nwin)
         # every other triple uses ONE object for all its generators, and iterates `firstlast` twice (a generator that
         # keeps state between uses shows up as different windows the second time); the others use fresh objects
@@ -63,14 +187,35 @@ def record(ns, w, ov):
         # pass while they are all suspended: the generators of an object must not share position state
         interleaved = (ns + w + ov) % 4 == 2
         ramp = scipy.signal.windows.hann((ov + 1) * 2 + 1, sym=True)[1:ov + 1]
+        sig, asig, sakw, axis = _signal(ns, (ns + 2 * w + ov) % 6) if ns <= SA_LIM else (None, None, {}, 0)
+        if same:
+            # histories of the object: generators started and abandoned after 0, 1 or 2 windows (a loop left with `break`),
+            # and a use that is declined (odd overlap: firstlast_valid asserts) - the object must serve the next use as if fresh
+            for j, name in enumerate(("firstlast", "firstlast_splicing", "slice", "firstlast_valid")):
+                g = iter(getattr(wg, name))
+                try:
+                    for _ in range((ns + w + j) % 3):
+                        next(g)
+                except (StopIteration, AssertionError):
+                    pass
+                if j % 2:
+                    g.close()
+                del g
         if interleaved:
-            its = {"fl": iter(wg.firstlast), "val": iter(wg.firstlast_valid) if ov % 2 == 0 else None,
-                   "spl": iter(wg.firstlast_splicing), "sl": iter(wg.slice)}
-            got = {"fl": [], "val": [], "spl": [], "sl": []}
+            # a second object with other numbers is alive and consumed in the same rounds: objects share nothing
+            from ibldsp.utils import WindowGenerator
+            decoy = WindowGenerator(ns + 5, w + 2, min(ov + 1, w))
+            for _ in _bounded(wg.firstlast, cap):      # tscale() below runs unguarded inside the code: make sure the loop stops
+                pass
+            dits = [iter(decoy.firstlast), iter(decoy.firstlast_splicing)]
+            its = {"fl": _bounded(wg.firstlast, cap), "val": _bounded(wg.firstlast_valid, cap) if ov % 2 == 0 else None,
+                   "spl": _bounded(wg.firstlast_splicing, cap), "sl": _bounded(wg.slice, cap),
+                   "sa": _bounded(wg.slice_array(sig, **sakw), cap) if sig is not None else None}
+            got = {"fl": [], "val": [], "spl": [], "sl": [], "sa": []}
             ts, k = None, 0
             while True:
                 progressed = False
-                for name in ("fl", "val", "spl", "sl"):
+                for name in ("fl", "val", "spl", "sl", "sa"):
                     if its[name] is None:
                         continue
                     try:
@@ -78,33 +223,84 @@ def record(ns, w, ov):
                     except StopIteration:
                         its[name] = None
                         continue
+                    if name == "spl":           # read now, then the caller overwrites its array
+                        f, l, a = item
+                        item = (int(f), int(l), _rle(a, ramp), len(a))
+                        try:
+                            a[:] = -3.0
+                        except ValueError:
+                            pass
+                    elif name == "sa":
+                        item = _decode_chunk(item, asig, axis)
                     got[name].append(item)
                     progressed = True
+                for d in dits:
+                    next(d, None)
                 if k == 0:
-                    ts = wg.tscale(fs=1)
+                    ts = tscale(wg)
                 k += 1
                 if not progressed or k > 4 * (ns + 2):
                     break
-            fl = [(int(a), int(b), i) for i, (a, b) in enumerate(got["fl"])]      # iw is shared by design: not observed here
+            fl = [_use(ns, a, b) + (i,) for i, (a, b) in enumerate(got["fl"])]   # iw is shared by design: not observed here
             val = ([tuple(int(x) for x in v) for v in got["val"]] if ov % 2 == 0 else [(f, l, -1, -1) for f, l, _ in fl])
-            spl = [(int(f), int(l), _rle(a, ramp), len(a)) for f, l, a in got["spl"]]
+            spl = got["spl"]
             sl = got["sl"]
+            for s in sl:
+                range(ns)[s]                     # a slice is used as an index
+            streams = [("firstlast_valid", [(v[0], v[1], i) for i, v in enumerate(val)]),
+                       ("firstlast_splicing", [(s[0], s[1], i) for i, s in enumerate(spl)]),
+                       ("slice", [_use(ns, s.start, s.stop) + (i,) for i, s in enumerate(sl)])]
+            if sig is not None:
+                streams.append(("slice_array", [(a, b, i) for i, (a, b) in enumerate(got["sa"])]))
         else:
-            new = (lambda: wg) if same else (lambda: WindowGenerator(ns, w, ov))
+            new = (lambda: wg) if same else (lambda: construct(ns, w, ov, form))
             if same:
-                first_pass = [(int(a), int(b)) for a, b in wg.firstlast]
+                first_pass = [(int(a), int(b)) for a, b in _bounded(wg.firstlast, cap)]
             fl = []
-            for first, last in wg.firstlast:
-                fl.append((int(first), int(last), int(wg.iw)))
+            for first, last in _bounded(wg.firstlast, cap):
+                fl.append(_use(ns, first, last) + (int(wg.iw),))
             if same and first_pass != [(a, b) for a, b, _ in fl]:
                 fl = [(-1, -1, -1)] * len(fl)          # the second iteration differs from the first: windows are not reproducible
+            # the counter `iw` is public (the repository's tests index their results with it inside loops over firstlast, slice
+            # and slice_array): it is observed in every kind of loop
+            o = new()
             if ov % 2 == 0:
-                val = [tuple(int(x) for x in v) for v in new().firstlast_valid]
+                val, viw = [], []
+                for v in _bounded(o.firstlast_valid, cap):
+                    val.append(tuple(int(x) for x in v))
+                    viw.append(int(o.iw))
             else:
-                val = [(f, l, -1, -1) for f, l, _ in fl]
-            spl = [(int(f), int(l), _rle(a, ramp), len(a)) for f, l, a in new().firstlast_splicing]
-            ts = new().tscale(fs=1)
-            sl = list(new().slice)
+                val, viw = [(f, l, -1, -1) for f, l, _ in fl], [i for _, _, i in fl]
+            o = new()
+            spl = _spl_items(_bounded(o.firstlast_splicing, cap), ramp, o)
+            ts = tscale(new())
+            o = new()
+            sl, sliw = [], []
+            for s in _bounded(o.slice, cap):
+                range(ns)[s]
+                sl.append(s)
+                sliw.append(int(o.iw))
+            streams = [("firstlast_valid", [(v[0], v[1], i) for v, i in zip(val, viw)]),
+                       ("firstlast_splicing", [(s[0], s[1], s[4]) for s in spl]),
+                       ("slice", [_use(ns, s.start, s.stop) + (i,) for s, i in zip(sl, sliw)])]
+            if sig is not None:
+                o = new()
+                sa = []
+                for chunk in _bounded(o.slice_array(sig, **sakw), cap):
+                    sa.append(_decode_chunk(chunk, asig, axis) + (int(o.iw),))
+                streams.append(("slice_array", sa))
+        # every generator of the object hands out "the windows": the property layer judges the first stream that differs from
+        # `firstlast` in place of it (same clauses: in range, cover, overlap, count; the other observations are attached by
+        # window bounds and position as before, so a stream that is not the one they belong to fails their clauses as well)
+        for name, st in streams:
+            if st != list(fl):
+                fl, rec["src"] = st, name
+                break
+        if not fl:
+            raise NoWindow(f"{rec['src']} produced no window")
+        nw_late = int(wg.nwin)                  # the announced count is an attribute: read again after all the iterations
+        if nw_late != len(fl):
+            rec["nwin"] = nw_late
         rec["nslices"] = len(sl)
         for k, (f, l, iw) in enumerate(fl):
             fv, lv = (-99, -99)
@@ -113,7 +309,9 @@ def record(ns, w, ov):
             segs = [["other", 0, l - f]]
             if k < len(spl) and spl[k][:2] == (f, l) and spl[k][3] == l - f:
                 segs = spl[k][2]
-            c2 = int(round(2 * float(ts[k]))) if k < len(ts) and float(2 * ts[k]).is_integer() else -99
+            c2 = _c2(ts[k], fs) if k < len(ts) else -99
+            if k == len(fl) - 1 and len(ts) != len(fl):
+                c2 = -99                         # the time scale has one entry per window
             if k < len(sl) and (sl[k].start, sl[k].stop) != (f, l):
                 rec["nslices"] = -1
             rec["wins"].append([f, l, iw, fv, lv, c2, segs])
@@ -145,6 +343,15 @@ def triples(ctx):
         ns = max(1, (w - ov) * nwin + rnd.randint(-w, w))
         ns = min(ns, 10 ** 7)
         out.append((ns, w, ov))
+    # the numbers of the repository's own call sites (voltage.resample_denoise_lfp_cbin: 65536 / 1024; NP2Converter and
+    # NP2Reconstructor: 2 s of AP samples with overlap 576 or 0), a few windows each: exact and short last windows, a
+    # recording shorter than a window, than the overlap
+    for w, ov in ((65536, 1024), (60000, 576), (60000, 0)):
+        st = w - ov
+        sites = [w + 2 * st, 3 * st + 1000, w + st + 1, w, max(ov, 1), w - 1, ov + 1]
+        if not ctx.quick:
+            sites += [w + rnd.randint(1, 7) * st for _ in range(3)] + [rnd.randint(1, 8 * st) for _ in range(8)]
+        out += [(ns, w, ov) for ns in sites]
     return out
 
 
@@ -193,7 +400,8 @@ def run(ctx):
         if v["prop"]:
             key = "win:" + v["prop"].split(":")[0]
             ctx.violation(key, f"WindowGenerator({t['ns']},{t['w']},{t['ov']}): property-layer clause {v['prop']} "
-                          f"false at window {v['pos']}", {"triple": [t["ns"], t["w"], t["ov"]], "trace": t})
+                          f"false at window {v['pos']} (windows of `{t.get('src', 'firstlast')}`)",
+                          {"triple": [t["ns"], t["w"], t["ov"]], "trace": t})
         elif v["impl"]:
             ctx.spec_drift(f"WindowGenerator({t['ns']},{t['w']},{t['ov']}) step {v['impl']} at {v['pos']} is not a step "
                            f"of spec/lib/Windows.tla (all property-layer formulas hold)")
@@ -202,8 +410,9 @@ def run(ctx):
     # 3. binding self-test: corrupt one field / drop one event of accepted traces -> must be flagged
     selftest(ctx, trs, {v["index"] for v in verdicts})
     ctx.cov["rule"] = ("model: every (ns,w,ov) of the box, every window; traces: one real WindowGenerator execution per "
-                       "triple (exhaustive small box + seeded random from the 400x64 box + random large); "
-                       "non-trivial = more than one window")
+                       "triple (exhaustive small box + seeded random from the 400x64 box + random large + the repository's "
+                       "call-site numbers), each in one of 7 argument forms x 6 sampling rates x 6 signal forms for slice_array, "
+                       "with object histories (see the module docstring); non-trivial = more than one window")
     ctx.cov["exhaustive"] = True
     ctx.assumptions += ["TLC 32-bit integers: lengths <= 1e7", "Hann identity w[i]+w[ov-1-i]=1 is asserted by the code itself "
                         "at run time and is the only numeric fact the splice clause rests on"]
